@@ -3,18 +3,16 @@ hash seed and working directory the parent chose, and reports digests.
 
     /venv/bin/python -m qv.c20_child  < job.json  > result.json
 
-The parse cache is never enabled here: determinism of the whole compile is
-what is under test.  Job modes:
+The parse cache is never enabled here: determinism of the whole compile
+(parser included) is what is under test.  Job modes:
 
-  tree : fork-tree exploration of compile histories.  After compiling a
-         history (each program in the job's configuration) the process
-         forks once per next program, so every history is a prefix of
-         process state reached by really compiling it, and siblings do not
-         see each other.  A record is produced for every node:
-         [history indices, target index, [o, g] of the history, [o, g] of the
-         target, digest].
-  seq  : compile the items one after the other in this process
-         (item = [key, source, o, g]); record = [key, digest].
+  seqs : job['programs'] = list of sources, job['seqs'] = list of compile
+         sequences, a sequence = [[program index, o, g], ...].
+         The sequences are compiled one after the other in this process (the
+         parent sends one sequence per fresh interpreter).  There is no
+         forking: a forked copy of a Python process that has imported qbee
+         costs 0.3 - 5 CPU seconds here (copy-on-write page faults).
+         Result: one list of digests per sequence (one digest per position).
   run  : run modules: item = [key, binary(base64), script, kind] with kind
          'env' (scripted Env) or 'realrng' (peripherals derived from the
          shipped BasePeripheralsImpl); record = [key, digest of outcome].
@@ -50,71 +48,20 @@ def _compile(impl, src, o, g, full=False):
     return digest(impl.compile_text(src, o, bool(g)), impl, full)
 
 
-def tree(impl, job):
+def seqs(impl, job):
     progs = job['programs']
-    maxlen = job['maxlen']            # history + target
-    mixed = job.get('mixed_depth', 0)
-    allcfg = [tuple(c) for c in job.get('all_configs', [])]
-    records = []
-    for cfg in job['configs']:
-        o, g = cfg
-        records.extend(_tree(impl, progs, (o, g), [], maxlen, job['firsts'],
-                             mixed, allcfg))
-    return records
-
-
-def _fork_collect(fn):
-    r, w = os.pipe()
-    pid = os.fork()
-    if pid == 0:
-        code = 0
-        try:
-            os.close(r)
-            out = fn()
-            with os.fdopen(w, 'w') as f:
-                json.dump(out, f)
-        except BaseException as e:  # noqa
-            try:
-                sys.stderr.write('c20_child fork failed: %r\n' % (e,))
-            except Exception:
-                pass
-            code = 3
-        os._exit(code)
-    os.close(w)
-    with os.fdopen(r) as f:
-        data = f.read()
-    _, status = os.waitpid(pid, 0)
-    if status != 0 or not data:
-        raise RuntimeError('forked node failed (status %r)' % (status,))
-    return json.loads(data)
-
-
-def _tree(impl, progs, cfg, hist, maxlen, firsts, mixed, allcfg):
-    out = []
-    cands = firsts if not hist else range(len(progs))
-    for p in cands:
-        def node(p=p):
-            recs = [[hist, p, list(cfg), list(cfg), _compile(impl, progs[p], *cfg)]]
-            h2 = hist + [p]
-            if len(h2) < maxlen:
-                recs.extend(_tree(impl, progs, cfg, h2, maxlen, firsts, mixed, allcfg))
-                if len(h2) <= mixed:
-                    # history compiled under cfg, target under every other configuration
-                    for q in range(len(progs)):
-                        for c2 in allcfg:
-                            if c2 == cfg:
-                                continue
-                            recs.extend(_fork_collect(
-                                lambda q=q, c2=c2: [[h2, q, list(cfg), list(c2),
-                                                     _compile(impl, progs[q], *c2)]]))
-            return recs
-        out.extend(_fork_collect(node))
-    return out
-
-
-def seq(impl, job):
     full = job.get('full', False)
-    return [[key, _compile(impl, src, o, g, full)] for key, src, o, g in job['items']]
+
+    def one(seq):
+        out = []
+        for i, (p, o, g) in enumerate(seq):
+            out.append(_compile(impl, progs[p], o, g, full and i == len(seq) - 1))
+        return out
+
+    res = []
+    for seq in job['seqs']:
+        res.append(one(seq))
+    return res
 
 
 def _real_rng_env(impl, script):
@@ -196,11 +143,11 @@ def main():
     sys.stdout = devnull
     job = json.load(sys.stdin)
     from qv import impl
+    if getattr(impl, '_proxy', None) is not None:
+        raise SystemExit('parse cache active in a C20 child')
     mode = job['mode']
-    if mode == 'tree':
-        rec = tree(impl, job)
-    elif mode == 'seq':
-        rec = seq(impl, job)
+    if mode == 'seqs':
+        rec = seqs(impl, job)
     elif mode == 'run':
         rec = runs(impl, job)
     else:
